@@ -1012,6 +1012,7 @@ package readline
 //@   assume_nopanic the display, the prompt and the terminal are outside this contract: only what is handed to fmt.Printf is claimed
 //@   requires rl != nil && rl.Config != nil && rl.Keymap != nil && rl.Iterations != nil && rl.Display != nil && rl.Prompt != nil
 //@   at_call fmt.Printf#1 [inputrc-format] a0 == "set %s %v\n" && len(a1) == 2
+//@   at_call fmt.Printf#1 [booleans-as-on-off] !typeis(a1[1], "bool")
 //@   at_call fmt.Printf#2 [readable-format] a0 == "%s is set to `%v'\n" && len(a1) == 2
 
 // ---------------------------------------------------------------------------------------
